@@ -282,6 +282,36 @@ fn main() {
             let other = t.get(5).map(|s| s.to_string());
             isolated(move || stress(&path, other.as_deref(), &names, &contents, th, it, sd), 60)
         }
+        // xtract <archive> <target file> <names hex ,>: SFileExtractFile of every name in turn to the SAME local path;
+        // after each call the file on disk must equal Archive::read_file (missing names must fail and leave the file alone)
+        "xtract" => {
+            let path = t[1].to_string();
+            let target = t[2].to_string();
+            let names: Vec<String> = t[3].split(',').map(|n| String::from_utf8_lossy(&unhex(n)).to_string()).collect();
+            isolated(move || {
+                let mut a = match Archive::open(&path) { Ok(a) => a, Err(_) => return "OPEN-ERR".to_string() };
+                let cp = CString::new(path.as_str()).unwrap();
+                let ct = CString::new(target.as_str()).unwrap();
+                let mut hd: HANDLE = std::ptr::null_mut();
+                if !unsafe { SFileOpenArchive(cp.as_ptr(), 0, 0, &mut hd) } { return "OPEN-FAIL".to_string(); }
+                let mut out = Vec::new();
+                for n in &names {
+                    let before = std::fs::read(&target).ok();
+                    let cn = CString::new(n.as_str()).unwrap();
+                    let ok = unsafe { SFileExtractFile(hd, cn.as_ptr(), ct.as_ptr(), 0) };
+                    let after = std::fs::read(&target).ok();
+                    let want = a.read_file(n).ok();
+                    out.push(match (ok, want) {
+                        (true, Some(w)) => if after.as_deref() == Some(&w[..]) { "ok".to_string() } else { format!("DIFF:{}:{}", after.map(|x| x.len()).unwrap_or(0), w.len()) },
+                        (true, None) => "UNEXPECTED-SUCCESS".to_string(),
+                        (false, Some(_)) => "UNEXPECTED-FAILURE".to_string(),
+                        (false, None) => if after == before { "refused".to_string() } else { "REFUSED-BUT-WROTE".to_string() },
+                    });
+                }
+                unsafe { SFileCloseArchive(hd); }
+                out.join(",")
+            }, 30)
+        }
         _ => "ERR unknown".to_string(),
     });
 }
